@@ -2,6 +2,7 @@ package main
 
 import (
 	"fmt"
+	"strings"
 	"sync"
 	"unicode/utf8"
 
@@ -52,6 +53,18 @@ func bufOps() []bufOp {
 		ops = append(ops, bufOp{Name: "raw WriteString(" + q(p) + ")", Kind: 'w', Raw: true, Text: []byte(p), Valid: true, Apply: func(b *buffer.Buffer) { b.WriteString(p) }})
 	}
 	ops = append(ops, bufOp{Name: "Grow(3)", Kind: 'g', Apply: func(b *buffer.Buffer) { b.Grow(3) }})
+	// fill an EMPTY buffer up to 60 safe bytes (already escaped), so that the following levels work at the edge of
+	// the first 64-byte allocation (spare capacity 4,3,2,1,0 and the re-allocation)
+	fill := strings.Repeat("a", 60)
+	ops = append(ops, bufOp{Name: "fill60", Kind: 'f', Text: []byte(fill), Valid: true, Apply: func(b *buffer.Buffer) {
+		if b.Len() != 0 {
+			return
+		}
+		b.SetMode(buffer.SafeEscaped)
+		b.WriteString(fill)
+		b.SetMode(buffer.UnsafeEscaped)
+		b.SetMode(buffer.SafeEscaped)
+	}})
 	// StringBuilder-level calls (the builder selects the mode itself): applied to a builder wrapped around the state
 	sb := func(name string, class byte, text string, valid bool, f func(b *redact.StringBuilder)) {
 		ops = append(ops, bufOp{Name: "StringBuilder." + name, Kind: 'b', Class: class, Text: []byte(text), Valid: valid, Apply: func(b *buffer.Buffer) {
